@@ -29,6 +29,8 @@ pub enum Op {
     Rewind(u8),
     SpanSince(u8),
     SliceSince(u8),
+    /// `inp.span_from(cp_i..)`: from a checkpoint to the end of the input (inputs of known size only)
+    SpanFrom(u8),
     /// `inp.slice(cp0..cp1)`
     SliceBetween,
     /// `inp.parse(just('a').repeated())`
@@ -50,6 +52,7 @@ impl Op {
             Op::Save => "save".into(),
             Op::Rewind(i) => format!("rewind{i}"),
             Op::SpanSince(i) => format!("span_since{i}"),
+            Op::SpanFrom(i) => format!("span_from{i}"),
             Op::SliceSince(i) => format!("slice_since{i}"),
             Op::SliceBetween => "slice01".into(),
             Op::ParseAStar => "parse_a_star".into(),
@@ -61,7 +64,7 @@ impl Op {
         ALL_OPS.iter().copied().find(|o| o.name() == s)
     }
 }
-pub const ALL_OPS: [Op; 17] = [
+pub const ALL_OPS: [Op; 18] = [
     Op::Next,
     Op::NextMaybe,
     Op::Peek,
@@ -78,7 +81,8 @@ pub const ALL_OPS: [Op; 17] = [
     Op::ParseAStar,
     Op::CheckA,
     Op::Emit,
-    Op::Emit,
+    Op::SpanFrom(0),
+    Op::SpanFrom(1),
 ];
 
 #[derive(Clone, Debug, PartialEq, Eq, Hash)]
@@ -93,6 +97,8 @@ pub enum Obs {
     Unit,
     Tok(Option<char>),
     Span(usize, usize),
+    /// span from a position to the end of the input
+    SpanFrom(usize, usize),
     /// (start token index, text)
     Slice(usize, String),
 }
@@ -109,7 +115,7 @@ pub const MAX_SAVED: usize = 2;
 pub const MAX_EMITTED: usize = 2;
 
 /// model transition; None = op not enabled in this state
-pub fn step(t: &[char], s: &MState, op: Op, slices: bool) -> Option<(MState, Obs)> {
+pub fn step(t: &[char], s: &MState, op: Op, slices: bool, exact: bool) -> Option<(MState, Obs)> {
     let mut n = s.clone();
     let o = match op {
         Op::Next | Op::NextMaybe => {
@@ -146,6 +152,14 @@ pub fn step(t: &[char], s: &MState, op: Op, slices: bool) -> Option<(MState, Obs
                 return None;
             }
             Obs::Span(p, s.pos)
+        }
+        Op::SpanFrom(i) => {
+            if !exact {
+                return None;
+            }
+            // the checkpoint may lie before or after the current position: the answer does not depend on it
+            let (p, _) = *s.saved.get(i as usize)?;
+            Obs::SpanFrom(p, t.len())
         }
         Op::SliceSince(i) => {
             if !slices {
@@ -206,7 +220,7 @@ macro_rules! slice_arm {
 }
 
 macro_rules! driver {
-    ($name:ident, $I:ty, $T:ty, $sl:tt, $slice_obs:expr) => {
+    ($name:ident, $I:ty, $T:ty, $sl:tt, $ex:tt, $slice_obs:expr) => {
         #[allow(clippy::redundant_closure_call)]
         pub fn $name<'a>(mk: &dyn Fn() -> $I, script: &[Op], tok: fn(char) -> $T, untok: fn($T) -> char) -> Result<Run, String> {
             let script: Vec<Op> = script.to_vec();
@@ -236,6 +250,10 @@ macro_rules! driver {
                             let s: SimpleSpan = inp.span_since(cps[i as usize].cursor());
                             Obs::Span(s.start, s.end)
                         }
+                        Op::SpanFrom(i) => slice_arm!($ex, {
+                            let s: SimpleSpan = inp.span_from(cps[i as usize].cursor()..);
+                            Obs::SpanFrom(s.start, s.end)
+                        }),
                         Op::SliceSince(i) => slice_arm!($sl, {
                             let sl = inp.slice_since(cps[i as usize].cursor()..);
                             ($slice_obs)(sl)
@@ -292,12 +310,12 @@ fn no_slice(_: ()) -> Obs {
     Obs::Unit
 }
 
-driver!(drive_str, &'a str, char, yes, str_slice);
-driver!(drive_chars, &'a [char], char, yes, chars_slice);
-driver!(drive_u8, &'a [u8], u8, yes, u8_slice);
-driver!(drive_stream, e1::StreamIn, char, no, no_slice);
-driver!(drive_mapped, e1::MappedIn<'a>, char, no, no_slice);
-driver!(drive_io, e1::IoIn<'a>, u8, no, no_slice);
+driver!(drive_str, &'a str, char, yes, yes, str_slice);
+driver!(drive_chars, &'a [char], char, yes, yes, chars_slice);
+driver!(drive_u8, &'a [u8], u8, yes, yes, u8_slice);
+driver!(drive_stream, e1::StreamIn, char, no, yes, no_slice);
+driver!(drive_mapped, e1::MappedIn<'a>, char, no, yes, no_slice);
+driver!(drive_io, e1::IoIn<'a>, u8, no, no, no_slice);
 
 #[derive(Clone, Copy, Debug, PartialEq, Eq)]
 pub enum CK {
@@ -324,6 +342,10 @@ impl CK {
     }
     pub fn from_name(s: &str) -> Option<CK> {
         CK::ALL.into_iter().find(|k| k.name() == s)
+    }
+    /// the input knows its size (`ExactSizeInput`): `span_from` is available
+    pub fn exact(self) -> bool {
+        !matches!(self, CK::Io)
     }
     pub fn slices(self) -> bool {
         matches!(self, CK::Str | CK::StrMb | CK::Chars | CK::U8)
@@ -397,6 +419,11 @@ fn normalise(mut run: Run, span: &dyn Fn((usize, usize)) -> Option<(usize, usize
                 *a = x;
                 *b = y;
             }
+            Obs::SpanFrom(a, b) => {
+                // both ends are positions: the start of the token at the checkpoint, the end of the input
+                *a = span((*a, *a)).map_or(BAD, |x| x.0);
+                *b = span((*b, *b)).map_or(BAD, |x| x.0);
+            }
             Obs::Slice(o, _) => {
                 *o = if *o == BAD { BAD } else { off(*o).unwrap_or(BAD) };
             }
@@ -407,7 +434,7 @@ fn normalise(mut run: Run, span: &dyn Fn((usize, usize)) -> Option<(usize, usize
 }
 
 /// BFS over the model; returns (states, edges) where each edge = (parent state index, op)
-pub fn explore(t: &[char], slices: bool) -> (Vec<MState>, Vec<(usize, Op, usize)>, Vec<Option<(usize, Op)>>) {
+pub fn explore(t: &[char], slices: bool, exact: bool) -> (Vec<MState>, Vec<(usize, Op, usize)>, Vec<Option<(usize, Op)>>) {
     let init = MState { pos: 0, saved: vec![], emitted: 0 };
     let mut idx: HashMap<MState, usize> = HashMap::new();
     let mut states = vec![init.clone()];
@@ -417,8 +444,8 @@ pub fn explore(t: &[char], slices: bool) -> (Vec<MState>, Vec<(usize, Op, usize)
     let mut q = VecDeque::from([0usize]);
     while let Some(si) = q.pop_front() {
         let s = states[si].clone();
-        for op in ALL_OPS.iter().copied().take(16) {
-            if let Some((n, _)) = step(t, &s, op, slices) {
+        for op in ALL_OPS.iter().copied() {
+            if let Some((n, _)) = step(t, &s, op, slices, exact) {
                 let ni = *idx.entry(n.clone()).or_insert_with(|| {
                     states.push(n.clone());
                     parent.push(Some((si, op)));
@@ -443,11 +470,11 @@ fn path_to(parent: &[Option<(usize, Op)>], mut si: usize) -> Vec<Op> {
 }
 
 /// model prediction for a whole script
-pub fn predict(t: &[char], script: &[Op], slices: bool) -> Option<(Vec<StepObs>, MState)> {
+pub fn predict(t: &[char], script: &[Op], slices: bool, exact: bool) -> Option<(Vec<StepObs>, MState)> {
     let mut s = MState { pos: 0, saved: vec![], emitted: 0 };
     let mut out = vec![];
     for op in script {
-        let (n, o) = step(t, &s, *op, slices)?;
+        let (n, o) = step(t, &s, *op, slices, exact)?;
         let (c, h) = cvm::ast::track_fold(&t[..n.pos]);
         out.push(StepObs { o, here: (n.pos, n.pos), st: (c, h) });
         s = n;
@@ -456,7 +483,7 @@ pub fn predict(t: &[char], script: &[Op], slices: bool) -> Option<(Vec<StepObs>,
 }
 
 pub fn check_script(kind: CK, t: &[char], script: &[Op]) -> Result<(), String> {
-    let (want, fin) = predict(t, script, kind.slices()).ok_or("script not enabled in the model")?;
+    let (want, fin) = predict(t, script, kind.slices(), kind.exact()).ok_or("script not enabled in the model")?;
     let run = run_real(kind, t, script)?;
     if run.steps != want {
         let k = run.steps.iter().zip(want.iter()).position(|(a, b)| a != b).unwrap_or(0);
@@ -487,7 +514,7 @@ pub fn run(unit: &str, len: usize, cx: &ShardCtx) -> UnitResult {
                 continue;
             }
             (cx.progress)(case - 1);
-            let (states, edges, parent) = explore(t, kind.slices());
+            let (states, edges, parent) = explore(t, kind.slices(), kind.exact());
             r.states += states.len() as u64;
             r.transitions += edges.len() as u64;
             *r.counters.entry(format!("states[{}]", kind.name())).or_default() += states.len() as u64;
@@ -512,7 +539,7 @@ pub fn run(unit: &str, len: usize, cx: &ShardCtx) -> UnitResult {
     }
     r.counters.insert("longest_replayed_path".into(), maxpath as u64);
     r.distinct_outcomes = r.states;
-    r.desc = format!("cursor machine: BFS over all reachable model states <pos, <= {MAX_SAVED} checkpoints, <= {MAX_EMITTED} emitted> for every input over \"abc\" of length <= {len} on {} input kinds; operations next/next_maybe/peek/peek_maybe/skip/save/rewind(i)/span_since(i)/slice_since(i)/slice(cp0..cp1)/parse(just(a)*)/check(just(a)?)/emit; every edge replayed on the real InputRef (shortest path + op), every step's token, span, slice, position read-out and inspector snapshot compared", CK::ALL.len());
+    r.desc = format!("cursor machine: BFS over all reachable model states <pos, <= {MAX_SAVED} checkpoints, <= {MAX_EMITTED} emitted> for every input over \"abc\" of length <= {len} on {} input kinds; operations next/next_maybe/peek/peek_maybe/skip/save/rewind(i)/span_since(i)/span_from(i)/slice_since(i)/slice(cp0..cp1)/parse(just(a)*)/check(just(a)?)/emit; every edge replayed on the real InputRef (shortest path + op), every step's token, span, slice, position read-out and inspector snapshot compared", CK::ALL.len());
     r
 }
 
